@@ -785,6 +785,30 @@ func genMergeWorkloads(r *Rand) (wa, wb, wab *Workload, pkg string, mode string)
 		// same names, one definition changed
 		o := &pb.Objects[r.Intn(len(pb.Objects))]
 		o.T = &WType{K: "struct", Fields: []WField{{Name: "conflicting_field", T: &WType{K: "bool"}, Required: true}}}
+		if sr := r.Side("subtle-conflict"); sr.Chance(1, 2) {
+			// a redefinition that differs in one detail only: the letter case of a referred
+			// object's name (both spellings exist), a field's required flag, a scalar's kind
+			pb = GenPackage(NewRand(seedA), pkg, GenOpts{NoAllOf: true})
+			have := map[string]bool{}
+			for _, ob := range pb.Objects {
+				have[ob.Name] = true
+			}
+			if !have["Unit"] {
+				pb.Objects = append(pb.Objects, WObject{Name: "Unit", T: &WType{K: "enum", Enum: []any{"s", "ms"}}}, WObject{Name: "unit", T: &WType{K: "struct", Fields: []WField{{Name: "symbol", T: &WType{K: "string"}}}}},
+					WObject{Name: "Measure", T: &WType{K: "struct", Fields: []WField{{Name: "value", T: &WType{K: "number"}, Required: true}, {Name: "unit", T: &WType{K: "ref", Ref: "Unit"}, Required: true}}}})
+				pa.Objects = append(pa.Objects, WObject{Name: "Unit", T: &WType{K: "enum", Enum: []any{"s", "ms"}}}, WObject{Name: "unit", T: &WType{K: "struct", Fields: []WField{{Name: "symbol", T: &WType{K: "string"}}}}},
+					WObject{Name: "Measure", T: &WType{K: "struct", Fields: []WField{{Name: "value", T: &WType{K: "number"}, Required: true}, {Name: "unit", T: &WType{K: "ref", Ref: "Unit"}, Required: true}}}})
+			}
+			m := &pb.Objects[len(pb.Objects)-1]
+			switch sr.Intn(3) {
+			case 0:
+				m.T.Fields[1].T = &WType{K: "ref", Ref: "unit"}
+			case 1:
+				m.T.Fields[0].Required = false
+			default:
+				m.T.Fields[0].T = &WType{K: "int"}
+			}
+		}
 	default:
 		// B = A's objects (identical) + extra objects of its own
 		pb = GenPackage(NewRand(seedA), pkg, GenOpts{NoAllOf: true})
